@@ -1,4 +1,5 @@
 """C04, C14, C17, C18, C19: differential / metamorphic checks on the real crate plus the ties they need."""
+import re
 import itertools
 from . import core, gen, engine, engprop, t1, apiprops
 from .core import hexs
@@ -393,6 +394,8 @@ class Respell:
                 return self.r.choice(["\\x61", "\\x{61}", "\\u0061", "\\U00000061", "\\x{0061}"])
             if m == "esc" and c == "é" and self.r.random() < 0.5:
                 return self.r.choice(["\\xe9", "\\x{E9}", "\\u00E9", "\\x{00e9}"])
+            if m == "esc" and len(c) == 1 and c in "\\.+*?()|[]{}^$#" and self.r.random() < 0.6:
+                return self.r.choice(["\\x%02x", "\\x{%x}", "\\u%04X", "\\U%08x", "\\x{%04X}"]) % ord(c)
             return ("\\" + c) if c in "\\.+*?()|[]{}^$# " or (m == "x" and c in " #\n") else c
         if k == "any":
             return "."
@@ -486,6 +489,18 @@ class Respell:
         raise ValueError(k)
 
 
+def canon_casei(tree):
+    """the case-insensitivity bit of a literal without cased characters carries no meaning
+    (`(?i)\\.` sets it to 0, `(?i)\\x2e` to 1; both match exactly '.'): compare trees modulo it"""
+    def fix(m):
+        try:
+            v = bytes.fromhex(m.group(1)).decode("utf-8")
+        except Exception:
+            return m.group(0)
+        return "L%s:0" % m.group(1) if v.lower() == v.upper() else m.group(0)
+    return re.sub(r"L([0-9a-f]+):([01])", fix, tree)
+
+
 def has(t, kinds):
     if t[0] in kinds:
         return True
@@ -507,14 +522,18 @@ def run_c19(tier, seed, replay=None):
         fixed = [("(?x) \\d   # digits\n     +   # one or more\n", "\\d+", "x"), ("(?x)\n  # c1\n  # c2\n  a", "a", "x"), ("(?x) foo | # first\n # second\n bar", "foo|bar", "x"),
                  ("(?x) a{2, # at least two\n      3  # at most three\n   }", "a{2,3}", "x"), ("a(?#comment)b", "ab", "x"), ("\\h", "[0-9A-Fa-f]", "esc"), ("\\H", "[^0-9A-Fa-f]", "esc"),
                  ("\\e", "\\x1B", "esc"), ("\\Aa\\z", "^a$", "esc"), ("(?>a*)", "a*+", "poss"), ("(?>a{2,3}?)b", "a{2,3}?+b", "poss"), ("(a)(b)\\k<-2>", "(a)(b)\\1", "rel"),
-                 ("(?<x>a)\\k<x>", "(a)\\1", "named"), ("(?P<x>a)(?P=x)", "(a)\\1", "pnamed"), ("(?i:a)b", "(?:(?i)a)b", "flag"), ("(?x: a b )", "ab", "x")]
+                 ("(?<x>a)\\k<x>", "(a)\\1", "named"), ("(?P<x>a)(?P=x)", "(a)\\1", "pnamed"), ("(?i:a)b", "(?:(?i)a)b", "flag"), ("(?x: a b )", "ab", "x"),
+                 # an escaped metacharacter and its hex / unicode escape, with and without (?i)
+                 ("a\\$", "a\\x24", "esc"), ("(?i)a\\$", "(?i)a\\x24", "esc"), ("(?i)\\.", "(?i)\\x2e", "esc"), ("(?i)a\\|b", "(?i)a\\x{7c}b", "esc"), ("(?i:\\*)a", "(?i:\\u002A)a", "esc"),
+                 ("(?i)(a)\\1\\|b", "(?i)(a)\\1\\x7cb", "esc"), ("(?i)\\(a\\)", "(?i)\\x28a\\x29", "esc"), ("(?i)\\[", "(?i)\\U0000005b", "esc"), ("(?i)\\\\", "(?i)\\x5c", "esc")]
         pairs += fixed
         fs = gen.Feats(refs_closed=True, flags=True, multibyte=True, classes=True, cond=True)
+        fs_meta = gen.Feats(refs_closed=True, flags=True, multibyte=True, classes=False, cond=False, meta_lits=True, keepout=False, wordb=False)
         n = 500 if tier == "quick" else 8000
         k = 0
         while k < n:
             k += 1
-            _, t = gen.random_pattern(r, r.choice([2, 3, 3, 4]), fs)
+            _, t = gen.random_pattern(r, r.choice([2, 3, 3, 4]), fs if k % 4 else fs_meta)
             base = gen.show(t, 0)
             if len(base) > 50:
                 continue
@@ -539,7 +558,8 @@ def run_c19(tier, seed, replay=None):
     infos = {i["pattern"]: i for i in engine.prog_info(pats)}
     bad_t1, _, _ = t1.compare(pats)
     res.oblige("tie:T1 parser model = real parser on %d spellings" % len(pats), not bad_t1)
-    texts = gen.texts(2) + ["aab", "abab", "abc", "aé", "éa-", "a1", "AbA", "foo", "bar", "77", "aaa"]
+    texts = gen.texts(2) + ["aab", "abab", "abc", "aé", "éa-", "a1", "AbA", "foo", "bar", "77", "aaa",
+                            "a$", "$", ".", "a|b", "|", "*a", "(a)", "[", "\\", "aa|B", "a.b", "+", "?", "{", "^a", "#"]
     lines, meta = [], []
     for p in pats:
         if engine.ngroups_of(infos[p]) is None:
@@ -558,7 +578,7 @@ def run_c19(tier, seed, replay=None):
             continue
         ntree += 1
         # where the tree is defined to be the same: everything except named-group metadata
-        if ia["tree"] != ib["tree"] or ia["bs"] != ib["bs"]:
+        if canon_casei(ia["tree"]) != canon_casei(ib["tree"]) or ia["bs"] != ib["bs"]:
             viol.append({"kind": "input", "pattern": a, "respelled": b, "family": fam, "impl": ib["tree"], "reference": ia["tree"], "check": "documented-equivalent spellings parse to the same tree"})
             continue
         if engine.ngroups_of(infos[a]) is None or engine.ngroups_of(infos[b]) is None:
